@@ -176,7 +176,7 @@ class SupervisedSimulation(Environment):
             Y          = args[1]
             label_type = args[2] if len(args) > 2 else kwargs.get("label_type", None)
             params     = {"source": "[X,Y]"}
-            source     = IterableSource(zip(X,Y))
+            source     = IterableSource(list(zip(X,Y)))
 
         self._label_type = label_type
         self._source     = source
